@@ -283,6 +283,7 @@ def run(ctx):
         outs = pool.map("engines.c20:eval_deprecated_ids", [{"G": d} for d in descs])
     with Pool(seeds=[0], init="engines.explore:worker_init") as pool:
         routs = pool.map("engines.c20:eval_repair", REPAIR_SCENARIOS)
+        touts = pool.map("engines.c20:eval_repair_twostep", [{"order": "AB"}, {"order": "BA"}])
     n, sigs = 0, set()
     for d, o in zip(descs, outs):
         n += o["n"]
@@ -295,6 +296,11 @@ def run(ctx):
         trans += o["transitions"]
         for b in o["bad"]:
             res.violation(f"{b['kind']}", f"scenario {sc}: after `deprecated {b.get('cmd')}`: {json.dumps(b, default=str)[:900]}", {"part": "repair", "scenario": sc, "bad": b})
+    for sc2, o in zip(("AB", "BA"), touts):
+        states += o["states"]
+        trans += o["transitions"]
+        for b in o["bad"]:
+            res.violation(f"{b['kind']}", f"two-step deprecation ({sc2}): after `{b.get('cmd')}`: {json.dumps(b, default=str)[:900]}", {"part": "twostep", "order": sc2, "bad": b})
     res.coverage = {
         "evaluations": n + trans,
         "distinct_nontrivial": len(sigs) + states,
@@ -316,8 +322,112 @@ def replay(ctx, payload):
         from . import gwork
         gwork.init()
         print(eval_deprecated_ids({"G": payload["G"]}))
+    elif payload["part"] == "twostep":
+        from . import explore
+        explore.worker_init()
+        print(json.dumps(eval_repair_twostep({"order": payload["order"]}), default=str)[:6000])
     else:
         from . import explore
         explore.worker_init()
         print(json.dumps(eval_repair(payload["scenario"]), default=str)[:6000])
     return 0
+
+
+# ---------------------------------------------------------------------------------------------- (b') identifiers that change twice
+def eval_repair_twostep(item):
+    """A stored job Learn2(a=OldA, b=OldB): OldA and OldB get deprecated one after the other, with repairs in between in
+    every order.  State = (jobs tree, set of deprecated classes); transitions = the three CLI commands + "deprecate the
+    next class" (a change of the program)."""
+    import universe.dep as D
+    from . import vworld as V, vxpm as X
+    X.install()
+    out = {"states": 0, "transitions": 0, "bad": []}
+    base = Path(tempfile.mkdtemp(prefix="c20t", dir="/dev/shm"))
+    classes = [D.OldA, D.OldB] if item.get("order", "AB") == "AB" else [D.OldB, D.OldA]
+
+    def build(x):
+        return D.Learn2(x=x, a=D.OldA(v=1), b=D.OldB(v=2))
+
+    def run(ws, xs, name):
+        rec = {}
+
+        def script(wd, result, proc):
+            from experimaestro import experiment
+            with experiment(ws, name, launcher=X.make_launcher(ws)) as xp:
+                for x in xs:
+                    t = build(x)
+                    t.submit()
+                    rec[x] = str(t.__xpm__.job.relpath)
+        r, hub, world = V.run_world([script], root_override=ws)
+        return r, rec
+
+    try:
+        for c in classes:
+            D.set_deprecated(c, False)
+        ws0 = base / "s0"
+        ws0.mkdir()
+        r, rec0 = run(ws0, [1], "xp_old")
+        if r.get("hung") or r.get("main_exc"):
+            out["bad"].append({"kind": "setup-failed", "detail": str(r.get("main_exc"))[:300]})
+            return out
+        orig_rel = rec0[1]
+        orig_files = sorted(f.name for f in (ws0 / "jobs" / orig_rel).iterdir() if not f.name.startswith("."))
+        seen = {}
+        frontier = [(ws0, 0)]          # (workspace dir, number of classes deprecated so far)
+        seen[(json.dumps(tree_state(ws0), sort_keys=True), 0)] = True
+        n = 0
+        while frontier:
+            nxt = []
+            for ws, nd in frontier:
+                moves = [["list"], ["list", "--fix"], ["list", "--fix", "--cleanup"]] + ([["DEPRECATE"]] if nd < len(classes) else [])
+                for cmd in moves:
+                    n += 1
+                    dst = base / f"s{n}"
+                    shutil.copytree(ws, dst, symlinks=True)
+                    relink(dst, ws)
+                    nd2 = nd
+                    for i, c in enumerate(classes):
+                        D.set_deprecated(c, i < (nd + 1 if cmd == ["DEPRECATE"] else nd))
+                    if cmd == ["DEPRECATE"]:
+                        nd2 = nd + 1
+                        err = None
+                    else:
+                        output, err = cli(["deprecated"] + cmd + [str(dst)])
+                    out["transitions"] += 1
+                    st = tree_state(dst)
+                    label = " ".join(cmd) + f" (deprecated so far: {nd2})"
+                    if err:
+                        out["bad"].append({"kind": "command-raises", "cmd": label, "error": err[:300]})
+                    # job data preserved
+                    data = [f for f in orig_files if not f.endswith((".json", ".tmp"))]
+                    holders = [k for k, v in st.items() if "files" in v and set(data) <= set(v["files"])]
+                    if not holders:
+                        out["bad"].append({"kind": "job-data-lost", "cmd": label, "state": st})
+                    if "--fix" in cmd and nd2 > 0:
+                        cur = build(1)
+                        cur_id = cur.__xpm__.identifier.all.hex()
+                        p = dst / "jobs" / "dep.learn" / cur_id
+                        if not (p.exists() and p.is_dir() and set(data) <= {f.name for f in p.iterdir()}):
+                            out["bad"].append({"kind": "old-result-not-reachable:second-deprecation" if nd2 > 1 else "old-result-not-reachable",
+                                               "cmd": label, "expected": cur_id[:8], "state": st})
+                        else:
+                            tmp = base / f"s{n}_re"
+                            shutil.copytree(dst, tmp, symlinks=True)
+                            relink(tmp, dst)
+                            r2, _ = run(tmp, [1], "xp_new")
+                            if any(e[0] == "launch" for e in r2["events"]):
+                                out["bad"].append({"kind": "relaunched-after-fix:twostep", "cmd": label, "state": st})
+                            shutil.rmtree(tmp, ignore_errors=True)
+                    key = (json.dumps(st, sort_keys=True), nd2)
+                    if key not in seen:
+                        seen[key] = True
+                        nxt.append((dst, nd2))
+                    else:
+                        shutil.rmtree(dst, ignore_errors=True)
+            frontier = nxt
+        out["states"] = len(seen)
+    finally:
+        for c in classes:
+            D.set_deprecated(c, True)
+        shutil.rmtree(base, ignore_errors=True)
+    return out
